@@ -458,9 +458,20 @@ func (s *state) exec(c *h.Ctx, op string) string {
 
 var caseSeq int
 
+// tmpBase prefers a memory-backed directory: every segment close fsyncs, which dominates the run on disk.
+func tmpBase() string {
+	if d := os.Getenv("VERIF_TMP"); d != "" {
+		return d
+	}
+	if st, err := os.Stat("/dev/shm"); err == nil && st.IsDir() {
+		return "/dev/shm"
+	}
+	return ""
+}
+
 func runCase(c *h.Ctx, ops []string) {
 	caseSeq++
-	root, err := os.MkdirTemp("", "verif-wal-")
+	root, err := os.MkdirTemp(tmpBase(), "verif-wal-")
 	if err != nil {
 		panic(err)
 	}
